@@ -103,6 +103,24 @@ func init() {
 			// str.replace_all with an empty pattern differs from Go; the pattern is required non-empty
 			return Val{T: App(SString, "str.replace_all", a[0].T, a[1].T, a[2].T), GT: strT}
 		},
+		"strings.ContainsAny": func(e *Exec, st *State, a []Val, x *ast.CallExpr) Val {
+			// with a constant character set this is a disjunction of str.contains (ASCII sets only)
+			if chars, ok := decodeSMTString(a[1].T.S); ok && len(chars) <= 40 {
+				var ds []Term
+				for i := 0; i < len(chars); i++ {
+					if chars[i] >= 0x80 {
+						ds = nil
+						break
+					}
+					ds = append(ds, App(SBool, "str.contains", a[0].T, StrLit(string(chars[i]))))
+				}
+				if ds != nil {
+					return Val{T: Or(ds...), GT: boolT}
+				}
+			}
+			fn := e.sc.Fun("pure:strings.ContainsAny", []string{SString, SString}, SBool)
+			return Val{T: App(SBool, fn, a[0].T, a[1].T), GT: boolT}
+		},
 		"fmt.Errorf": func(e *Exec, st *State, a []Val, x *ast.CallExpr) Val {
 			r := e.sc.Fresh("err", SInt)
 			e.sc.Assert(Not(Eq(r, IntLit(0))))
